@@ -266,7 +266,17 @@ DT_MEMBERS = [(r'^size\|std::vector<nano::dtree_node_t', '{self}->n'),
 
 def dtree_fns():
     k = dict(self_struct='struct nv_dtree', types=DT_TYPES, calls=DT_CALLS, members=DT_MEMBERS)
-    return dict(do_split=Fn('dtree_do_split', DTREE_CPP, 'do_split', flt='dtree_wlearner_t::do_split', **k))
+    pk = dict(k, calls=DT_CALLS + [(r'^operator\(\)\|typename tbase::t(const|mutable)ref \(const nano::tensor_size_t\)( const)?\|nano::tensor_t<nano::tensor_carray_storage_t, long, 1>', '{0}.p[{1}]'),
+                                   (r'^ctor\|nano::tensor_t<nano::tensor_vector_storage_t, long, 1>\|', 'nv_ixs_of({0})'),
+                                   (r'^operator\+=\|.*\|Eigen::MatrixBase<Eigen::Map<Eigen::Matrix<double, -1, 1, 0>, 0>\s*>', 'nv_row_add_at({&0}, {1})')],
+              members=[(r'^split\|nano::wlearner_t', 'base_split!'), (r'^group\|nano::cluster_t', 'nv_clu_group_split({self}, {0}, self)'),
+                       (r'^vector\|nano::tensor_t<nano::tensor_(marray|vector)_storage_t, double, 4>', 'nv_t4_vector'),
+                       (r'^size\|nano::tensor_base_t<long, 1', '{self}->n')] + DT_MEMBERS)
+    bk = dict(k, members=[(r'^critical_compatible\|nano::learner_t', 'nv_critical_compatible!'), (r'^do_split\|nano::wlearner_t', 'dtree_do_split')])
+    return dict(do_split=Fn('dtree_do_split', DTREE_CPP, 'do_split', flt='dtree_wlearner_t::do_split', **k),
+                do_predict=Fn('dtree_do_predict', DTREE_CPP, 'do_predict', flt='dtree_wlearner_t::do_predict', **pk),
+                # wlearner_t::split: the compatibility check, then the virtual do_split (here: the tree's)
+                base_split=Fn('base_split', 'src/wlearner.cpp', 'split', flt='wlearner_t::split', **bk))
 
 
 def iter_loop_hook(code, elem):
@@ -289,6 +299,25 @@ def iter_loop_hook(code, elem):
         P.note('select_iterator_t::loop(samples, feature, callback) -> nv_iter_loop')
         return f'nv_iter_loop({P.addr(me["inner"][0])}, {P.expr(args[0])}, {P.expr(args[1])}, {code})'
     return h
+
+
+def hinge_lemmas():
+    """the value proved for an active sample of a hinge is w * v + b (linear.h); with the representation invariant b = -threshold
+    * w (the only assignment to tables[1] in hinge.cpp's do_fit; ASSUMED, do_fit is not under contract) this is, over the
+    reals, the MARS hinge of include/nano/wlearner/hinge.h on BOTH sides of the threshold (inactive side: prediction 0)"""
+    import os
+    src = {'file': os.path.join(astload.VERIF, 'specs/C10/spec.py')}
+    hdr = ('(declare-const w Real)(declare-const b Real)(declare-const t Real)(declare-const v Real)\n'
+           '(define-fun pos ((x Real)) Real (ite (< 0.0 x) x 0.0))\n(assert (= b (* (- t) w)))\n')
+    # prediction as proved: active ? w * v + b : 0
+    left = '(ite (< v t) (+ (* w v) b) 0.0)'
+    right = '(ite (>= v t) (+ (* w v) b) 0.0)'
+    return [VC('lemma/hinge left: (v < t ? w*v + b : 0) == (-w) * (t - v)+  given b == -t*w', hdr + f'(assert (not (= {left} (* (- w) (pos (- t v))))))',
+               about='left hinge = beta * (threshold - x)+ with beta = -tables[0] (reals)', source=src),
+            VC('lemma/hinge right: (v >= t ? w*v + b : 0) == w * (v - t)+  given b == -t*w', hdr + f'(assert (not (= {right} (* w (pos (- v t))))))',
+               about='right hinge = beta * (x - threshold)+ with beta = tables[0] (reals)', source=src),
+            VC('lemma/canary: b == -t*w with a non-zero slope and an active sample is satisfiable', hdr + '(assert (not (= w 0.0)))(assert (< v t))',
+               about='vacuity guard (must be sat)', source=src, expect='sat')]
 
 
 def targs(*want):
@@ -343,6 +372,9 @@ def build(tier):
         targets.append(Target(f'{cls}_do_split', f['split'], LNH))
     DH = 'specs/C10/dtree.h'
     targets.append(Target('dtree_do_split', [dtree_fns()['do_split']], DH))
+    d = dtree_fns()
+    targets.append(Target('dtree_do_predict', [d['do_predict'], d['base_split'], d['do_split']], DH, replace=['dtree_do_split'],
+                          loops=1, defines=['NV_DTREE_CALLER']))
     MH = 'specs/C10/trymerge.h'
     t = try_merge_fns()
     targets.append(Target('base_try_merge', [t['base']], MH))
@@ -352,7 +384,7 @@ def build(tier):
     t = try_merge_fns()
     targets.append(Target('affine_try_merge', [t['affine'], t['helper'], t['feature']], MH))
     return {
-        'targets': targets, 'vcs': [],
+        'targets': targets, 'vcs': hinge_lemmas(),
         'decided': [
             'loop_scalar / loop_sclass / loop_mclass: op(i, value) is called only for 0 <= i < samples.size(), in increasing i, only for given values (finite / >= 0 / first label >= 0), with the value of sample i, and for every given value exactly once (ghost sample position); the enclosing functions hand the given samples and feature to select_iterator_t::loop once, with the callback overload of the right value kind',
             'stump: do_predict adds tables[value < threshold ? 0 : 1] to outputs row i exactly once for a given value and nothing for a missing one; split / do_split assign group (value < threshold ? 0 : 1) to samples(i) under the same rule with the same feature and the member threshold; cluster has dataset.samples() x 2',
@@ -360,14 +392,19 @@ def build(tier):
             'nano::find (single-label): result is -1 or the position of hash(value) in hashes; -1 implies the hash is absent (sorted hashes)',
             'wlearner::scale: every row i of tables is multiplied exactly once by scale[min(i, size-1)] = the factor of group i (the single factor if size == 1), all indices in range for size in {1, rows}; single_feature_wlearner_t::scale applies it to its own tables',
             'wlearner::merge: try_merge only through a non-null learner into an earlier slot; a slot is nulled only right after the successful try_merge that absorbed it; the learner holding the predictions of any given learner survives remove_if/erase (predicate = slot is null, whole vector, erase of exactly the returned tail); the vector does not grow',
+            'try_merge (what wlearner::merge assumes of it): wlearner_t::try_merge (inherited by stump, hinge, dtree: static_asserts in the driver) never merges; single_feature_wlearner_t::do_try_merge succeeds iff same feature and same coefficient dims; table_wlearner_t::try_merge succeeds only for another table learner (dynamic type) with the same feature, dims, and element-wise identical hashes and hash2tables (ghost positions); affine_wlearner_t::try_merge succeeds iff the other is an affine learner with the same feature and dims; on success the coefficient at the ghost position is old + other (Eigen += on equal sizes) and nothing else is written, on refusal nothing is written; `other` is never written; a null other is refused',
+            'affine: do_predict adds tables[0] * value + tables[1] (at the ghost output coefficient, IEEE operations uninterpreted) to outputs row i exactly for a given value, no other row is written; do_split assigns the single group 0 to samples(i) exactly for a given value',
+            'hinge: do_predict adds tables[0] * value + tables[1] to outputs row i iff the value is given and on the active side (left: value < threshold, right: value >= threshold), nothing otherwise and no other row is written; do_split assigns group 0 under the same condition (m_hinge one of the two enumerators); over the reals and with tables[1] == -threshold * tables[0] this is the MARS hinge on both sides (SMT lemmas)',
+            'dtree do_split: the walk of any sample through the sibling pairs of m_nodes is a single path that starts at the root pair, follows at every visited pair the stump rule on the sample\'s own value of that pair\'s feature (value < threshold ? first : second child), ends at the first missing value without a group or at a leaf pair with group m_table + side, a row of m_tables; node / table indices in range; samples outside the argument are never assigned; depth 1 (root pair is a leaf pair): one visit, group m_table(root) + (value < threshold ? 0 : 1) = the stump rule',
+            'dtree do_predict: through wlearner_t::split (compatibility check, then do_split) the row i of outputs receives exactly one update, the m_tables row of the group split() reports for samples(i), and none if there is no group; depth 1: the stump_do_predict contract',
         ],
         'not_decided': [
             'minimum RSS over the hypothesis class (all do_fit functions, accumulators, criterion): optimisation over float moment sums',
-            'hinge / affine predict and split (Eigen expressions over the feature value), dtree, depth-1 tree == stump',
-            'do_try_merge (tables added element-wise) and table/affine try_merge (dynamic_cast): the sum-preservation of merge rests on the assumed try_merge contract',
-            'numeric value of the scaled / added coefficients (Eigen += and *= are recorded, not computed)',
+            'dtree do_fit (the representation invariant of m_nodes and the order in which the stump tables are appended are ASSUMED), termination of the breadth-first walk of do_split (acyclic m_next)',
+            'hinge do_fit stores tables[1] = -threshold * tables[0] (hypothesis of the SMT lemmas)',
+            'numeric value of the scaled coefficients (Eigen *= is recorded, not computed); sums of merged / predicted coefficients are exact only as uninterpreted IEEE terms',
             'nano::find for multi-label values (detail::hash over the row) stays an assumed contract',
-            'no native replay driver (the check is green; counterexamples would be (value, threshold, index) tuples)',
+            'native replay only for the dtree groups() finding (replay/C10_replay.cpp); other counterexamples would be (value, threshold, index) tuples',
         ],
         'assumptions': [
             'select_iterator_t::loop(samples, feature, callback) calls callback(feature, 0, values) once with one value per sample, of the kind of the chosen overload (src/dataset/iterator.cpp)',
@@ -378,7 +415,17 @@ def build(tier):
             'callers: outputs has one row per sample (learner_t::predict asserts it); samples index valid dataset samples; scale.size() in {1, tables.size<0>()} (the function\'s own assert)',
             'nano::find for multi-label values returns -1 or a position in [0, hashes.size()) and is a pure function of (hashes, value)',
             'std::lower_bound returns the partition point of a sorted range (ghost index); hashes are sorted (make_hashes)',
-            'wlearner_t::try_merge(other): false for a null other; on success *this is equivalent with the sum of the two (include/nano/wlearner.h)',
+            'wlearner::merge uses the virtual try_merge by the contract proved for each implementation (targets *_try_merge): false for a null other; on success *this holds the sum of the two; virtual dispatch itself is not modelled',
+            'RTTI: dynamic_cast<const X*>(p) is null iff p is null or the dynamic type (ghost tag) is not X or derived from X; dense / kbest / ksplit / dstep derive from table_wlearner_t, everything but dtree from single_feature_wlearner_t',
+            'tensor operator== (include/nano/tensor/numeric.h): true implies equal sizes and equal elements at every index (given at ghost positions); tensor dims() == compares all four dimensions; size() is a function of dims; Eigen `a += b` on vector maps requires equal sizes (obligation) and adds coefficient-wise',
+            'try_merge is called with two different learners (distinct slots of a vector of unique_ptr)',
+            'ghost-element model of outputs / tables for affine, hinge: one output coefficient, one row of outputs, all other rows folded into one cell; Eigen statement `outputs.vector(i) += w * value + b` lifted by engine/eigencw (coefficient-wise semantics of Eigen assumed); outputs and tables have the same coefficient shape (learner_t::predict / the functions\' own assert)',
+            'm_hinge is hinge_type::left or ::right (set by do_fit; read() does not re-validate the stored byte: for any other value do_predict behaves as right while do_split assigns no group)',
+            'dtree representation invariant (do_fit; not re-validated by read()): m_nodes non-empty, position 0 and every m_next != 0 is the position of a sibling pair inside m_nodes, both members of a pair are leaves (m_next == 0) or both are not, a leaf pair has consecutive tables m_table, m_table + 1 inside m_tables; instantiated at the positions the code reads',
+            'std::deque is FIFO and stays below max_size(); every entry read by front() was pushed before (pushes are checked to carry a pair position: assume-guarantee over the queue); indices_t / cluster_t abstracted to the ghost sample (cluster_t constructor: no groups; group(s) in [-1, groups); indices(g) = samples of group g)',
+            'stump_wlearner_t::split inside dtree by the contract proved in target stump_split (per position), lifted to samples: a sample gets group (value < threshold ? 0 : 1) iff it is among the samples and its value is given',
+            'dtree do_predict: samples index valid dataset samples; groups of other samples are rows of m_tables (dtree_do_split.postcondition.3 at those samples); learner_t::critical_compatible throws or returns without other effects; indices_t(indices_cmap_t) copies',
+            'm_tables.size() >= m_tables.size<0>() (non-empty target dims)',
             'std::remove_if keeps exactly the elements for which the predicate is false, in order, at positions not after their old ones; vector::erase(first, end()) truncates at first',
             'single_feature_wlearner_t::vector(k) is m_tables.vector(k), tables() is m_tables (inline accessors in single.h); feature() is extracted',
             'lambda captures by reference denote the enclosing function\'s variables of the same name (closure objects are modelled as explicit argument lists / capture structs)',
